@@ -1,2 +1,37 @@
-(* C15Proofs.v — lemmas about the sync model used by props/C15.v *)
-From SV Require Import Base Json Canon Sync SyncObs CorrC13 CorrC14 CorrC15 C13Proofs.
+(* C15Proofs.v — lemmas for props/C15.v. *)
+From SV Require Export C14Proofs CorrC15.
+
+(* with deep=True "differing" means "different bytes" *)
+Lemma deep_diff_is_bytes : forall frepr c1 m1 c2 m2,
+  file_same frepr true c1 m1 c2 m2 = false <-> bytes_eqb (content_bytes frepr c1) (content_bytes frepr c2) = false.
+Proof. intros. rewrite file_same_deep. tauto. Qed.
+
+(* job-level entry points hand deep to the walk; the project-level one does iff F5 is repaired *)
+Lemma job_level_deep : forall frepr cf o sid did dsp src dst,
+  run_sync frepr cf o (E_job sid did dsp) src dst =
+  let '(d', e) := sync_jobs_m frepr cf o (o_deep o) false (job_dir sid (p_ws src)) (job_dir did (p_ws dst)) dsp in
+  ({| p_top := p_top dst;
+      p_ws := match d' with Some x => aset did (Dir x) (p_ws dst) | None => p_ws dst end |}, e).
+Proof. reflexivity. Qed.
+
+Lemma proj_deep_fixed : forall cf o, fix_F5 cf = true -> proj_deep cf o = o_deep o.
+Proof. intros. unfold proj_deep. rewrite H. reflexivity. Qed.
+
+Lemma proj_deep_current : forall o, proj_deep cfg_current o = false.
+Proof. reflexivity. Qed.
+
+(* the tree part of the dry-run clause of the oracle holds for the model once F4 and F16 are repaired *)
+Lemma model_holds_C15 : forall frepr cf i,
+  i_entry i = E_project -> o_dry_run (i_opts i) = true -> fix_F4 cf = true -> fix_F16 cf = true ->
+  docs_wf (i_src i) -> wf_project (i_src i) = true -> wf_project (i_dst i) = true ->
+  let c := model_case frepr cf i in
+  proj_eqb frepr (i_dst i) (ob_dst (c_obs c)) = true /\ proj_eqb frepr (i_src i) (ob_src (c_obs c)) = true
+  /\ ob_rest_ok (c_obs c) = true.
+Proof.
+  intros frepr cf i He Hdry H4 H16 Hdocs Hws Hwd. cbv zeta.
+  destruct (model_holds_C13 frepr cf i Hws) as [R S]. split; [|split; assumption].
+  unfold model_case, model_case_gen, model_call_gen. cbn [c_obs]. rewrite He. unfold run_sync_gen.
+  pose proof (sync_projects_dry_id frepr cf false (i_opts i) (i_src i) (i_dst i) Hdry H4 H16 Hdocs) as D.
+  destruct (sync_projects_m frepr cf false (i_opts i) (i_src i) (i_dst i)) as [dst' e]. cbn [fst ob_dst] in *.
+  subst dst'. apply proj_eqb_refl. assumption.
+Qed.
